@@ -15,7 +15,7 @@ func c05(c *Ctx) {
 		"rtp.(Header).Marshal", "rtp.(Header).MarshalTo", "rtp.(Header).MarshalSize"} {
 		f := p.Func(n)
 		if f == nil {
-			r.Fatalf("anchor %s missing", n)
+			missingAnchor(r, n)
 			continue
 		}
 		entries = append(entries, f)
